@@ -6,6 +6,7 @@ import (
 	"runtime"
 	"sync"
 	"sync/atomic"
+	"time"
 
 	etcdRaft "github.com/coreos/etcd/raft"
 	"github.com/coreos/etcd/raft/raftpb"
@@ -136,6 +137,12 @@ func (w *RecWAL) boundary(call, side string, ordinal int) {
 		return
 	}
 	cp.Hit = fmt.Sprintf("%s/%s/#%d/%s", w.kind(), call, ordinal, side)
+	// The process dies here. Whatever it sent before reaching this write (an
+	// acknowledgement, a raft message) has left it: give those a moment to land
+	// at their receivers before the node is marked dead, as they would with a
+	// disk write that takes its time - clients count a reply that races with
+	// the crash flag as "outcome unknown".
+	time.Sleep(15 * time.Millisecond)
 	atomic.StoreInt32(&w.n.dead, 1)
 	if f := w.c.OnCrash; f != nil {
 		f(w.n, cp)
